@@ -763,9 +763,10 @@ theorem reify_step (std : Stdlib) (n : Nat) (IH : Claims std n) :
   | array k t =>
     have ht' : t.plain = true := by simpa [Ty.plain] using ht
     simp only [reifyValue] at h
-    unfold reifyPrimitiveT at h
     by_cases hv : v.isNilPrim = true
     · simp only [hv, if_true] at h
+      unfold reifyPrimitiveT at h
+      simp only [hv, if_true] at h
       cases hc : recValidate std fo.opts (.array k t) [] (zeroOf (.array k t)) with
       | some e => rw [hc] at h; exact absurd h (raiseValidation_ne_ok e r)
       | none =>
@@ -779,7 +780,18 @@ theorem reify_step (std : Stdlib) (n : Nat) (IH : Claims std n) :
         · simp [Ty.isStrct] at hh
     · have hv' : v.isNilPrim = false := by simpa using hv
       simp only [hv', Bool.false_eq_true, if_false] at h
-      exact absurd h (raise_ne_ok _ r)
+      -- a fresh array is filled like an existing one
+      by_cases hl : ((castArr v).length != k) = true
+      · simp only [hl, if_true] at h
+        exact absurd h (raise_ne_ok _ r)
+      · simp only [hl, Bool.false_eq_true, if_false] at h
+        obtain ⟨xs', hxs, hf⟩ := bind_eq_ok h
+        obtain ⟨hr, hvv⟩ := list_validated std fo _ r hf
+        subst hr
+        obtain ⟨hfx, hvx⟩ := IH.arr fo t 0 _ (castArr v) xs' ht' (fitsAll_replicate t _ (fits_zeroOf t ht') k) hxs
+        refine ⟨by simpa [fits] using hfx, fun ov => ?_, fun _ _ => hvv⟩
+        rw [recValidate_array]
+        exact hvx ov
   | regexp => simp [Ty.plain] at ht
   | iface => simp [Ty.plain] at ht
   | config => simp [Ty.plain] at ht
